@@ -180,6 +180,8 @@ def history_cases(draw, max_steps):
     scn["diffusion"] = draw(st.sampled_from([0.0, 0.0, 5.0, 50.0]))
     scn["forcing"]["vel"]["amp"] = draw(st.sampled_from([0.2, 0.5, 0.8]))
     scn["forcing"]["vel"]["kind"] = draw(st.sampled_from(["shear", "noise", "const"]))
+    # some particles are released switched off: the release file has an 'active' column of 0 / 1
+    scn["release"]["active_col"] = draw(st.sampled_from([0, 0, 0b0110, 0b1, 0b10101]))
     return scn
 
 
@@ -214,6 +216,11 @@ def history_oracle(scn) -> core.CaseResult:
         res.cls("subgrid")
     res.cls("diffusion" if scn["diffusion"] else "no_diffusion")
     res.cls(scn["tracker"]["advection"])
+    off_tags = set()
+    if scn["release"].get("active_col"):
+        res.cls("released_switched_off")
+        off_tags = {t for t in range(64) if (scn["release"]["active_col"] >> (t % 8)) & 1}
+    first_pos = {p_["tag"]: (p_["x"], p_["y"]) for p_ in meta["placed"]}
     dead_seen: set = set()
     prev = None
     kills = cancels = 0
@@ -234,6 +241,14 @@ def history_oracle(scn) -> core.CaseResult:
             pid = snap["pid"].astype(int)
             alive = snap["alive"].astype(bool)
             X, Y = snap["X"], snap["Y"]
+            if off_tags and "tag" in snap:
+                # a particle released switched off stays where it was released (nothing in these runs switches it on)
+                for k in range(len(pid)):
+                    if int(snap["tag"][k]) in off_tags:
+                        p0 = first_pos[int(snap["tag"][k])]
+                        if not res.check(abs(X[k] - p0[0]) <= 1e-12 and abs(Y[k] - p0[1]) <= 1e-12, "released_inactive_moved",
+                                         f"step {step}: pid {pid[k]} (released with active = 0) moved from {p0} to ({X[k]}, {Y[k]})"):
+                            break
             res.check(not (set(pid[alive].tolist()) & dead_seen), "resurrected",
                       f"step {step}: dead particles alive again: {sorted(set(pid[alive].tolist()) & dead_seen)}")
             for k in np.nonzero(alive)[0]:
